@@ -52,6 +52,14 @@ pub fn relativize_path_in_diff_stat_line(
 ) -> Option<String> {
     let caps = DIFF_STAT_LINE_REGEX.captures(line)?;
     let path_relative_to_repo_root = caps.get(1).unwrap().as_str();
+    // A rename (`src/{old.rs => new.rs}`), a path which git has abbreviated (`.../dir/file.rs`)
+    // or quoted is not the path of a file: leave the line as it is.
+    if path_relative_to_repo_root.contains(" => ")
+        || path_relative_to_repo_root.starts_with(".../")
+        || path_relative_to_repo_root.starts_with('"')
+    {
+        return None;
+    }
 
     let relative_path =
         pathdiff::diff_paths(path_relative_to_repo_root, cwd_relative_to_repo_root)?;
